@@ -243,6 +243,7 @@ def _body(ctx):
     from rules import independence
     independence.r28_functions(ctx, [(ix0.qualname, {}), (pt0.qualname, {})])
 
+    abstypes.r18_target_field(ctx)      # what the package phase declares for each aggregate (shared with C02)
     run.rule('AGG', 'AGGREGATOR-TABLE: the twelve documented aggregates exist with (func, finaliser, dataType, copyProperties) and their '
                     'fold / finaliser have the documented shape (max calls max, min calls min, sum adds, count adds one, first keeps '
                     'the accumulator, last/any take the new value, set/array/counters collect); the fold tests the accumulator with '
@@ -314,6 +315,87 @@ def _body(ctx):
         has_stmt('return _s[_mid]', md.node) and (has_stmt('_mid = int(_n / 2)', md.node) or has_stmt('_mid = _n // 2', md.node)) and \
         (has_expr('_n % 2 == 0', md.node) or has_expr('_n % 2', md.node) or has_expr('_n % 2 != 0', md.node) or has_expr('_n % 2 == 1', md.node))
     run.check(ok, 'AGG', md.where, md.qualname, 'median of the sorted values (mean of the middle two for even counts)', 'median helper changed')
+    # ... arranged as: nothing collected -> None; even count -> mean of the two middle values of the sorted list; odd -> the middle one
+    from sa.pathvals import PathValues as _PV
+    from sa.model import norm_compare as _nc
+    v0 = md.params[0]
+    seen = set()
+    okm = True
+    for p in Enumerator(where=md.qualname).paths(md.node.body):
+        pv = _PV(p)
+        if len(pv.returns) != 1:
+            okm = False
+            continue
+        none_, even = None, None
+        for t, pol in pv.guards:
+            t, pol = _nc(t, pol)
+            if match_expr('%s is None' % v0, t) is not None:
+                none_ = pol
+            for pt, ev in (('__N % 2 == 0', True), ('__N % 2 != 0', False), ('__N % 2 == 1', False), ('__N % 2', False)):
+                b_ = match_expr(pt, t)
+                if b_ is not None and u(b_['__N']) == 'len(%s)' % v0:
+                    even = pol if ev else (not pol)
+                    break
+        r = pv.returns[0]
+        mids = ('int(len(%s) / 2)' % v0, 'len(%s) // 2' % v0)
+        if none_:
+            okm = okm and isinstance(r, ast.Constant) and r.value is None
+            seen.add('none')
+        elif even is True:
+            b_ = match_expr('(sorted(%s)[__M - 1] + sorted(%s)[__M2]) / 2' % (v0, v0), r) or \
+                match_expr('(sorted(%s)[__M2] + sorted(%s)[__M - 1]) / 2' % (v0, v0), r)
+            okm = okm and b_ is not None and u(b_['__M']) in mids and u(b_['__M2']) in mids
+            seen.add('even')
+        elif even is False:
+            b_ = match_expr('sorted(%s)[__M]' % v0, r)
+            okm = okm and b_ is not None and u(b_['__M']) in mids
+            seen.add('odd')
+        else:
+            okm = False
+    run.check(okm and seen == {'none', 'even', 'odd'}, 'AGG', md.where, md.qualname,
+              'median: None for no values; even count -> (s[mid-1] + s[mid]) / 2; odd -> s[mid], s = sorted(values), mid = len // 2',
+              'the median helper does not return the middle of the sorted values (mean of the middle two for an even count)')
+    # update_counter: nothing new -> unchanged; a text counts as one item; the running value is (made) a Counter and updated
+    uc0 = repo.func(J + ':update_counter', None)
+    if uc0 is None:
+        raise AnalysisError('join: update_counter not found')
+    uc = ctx.N(uc0)
+    cur, new = uc.params[:2]
+    okc, kinds = True, set()
+    for p in Enumerator(where=uc.qualname).paths(uc.node.body):
+        pv = _PV(p)
+        g = {}
+        infeasible = False
+        for t, pol in pv.guards:
+            t, pol = _nc(t, pol)
+            b_ = match_expr('isinstance(__X, collections.Counter)', t)
+            if b_ is not None and isinstance(b_['__X'], ast.Call) and u(b_['__X'].func) == 'collections.Counter' and not pol:
+                infeasible = True       # a Counter just made is a Counter
+        if infeasible:
+            continue
+        for t, pol in pv.guards:
+            t, pol = _nc(t, pol)
+            for nm, pt in (('new_none', '%s is None' % new), ('cur_none', '%s is None' % cur), ('new_str', 'isinstance(%s, str)' % new),
+                           ('cur_counter', 'isinstance(%s, collections.Counter)' % cur)):
+                if match_expr(pt, t) is not None:
+                    g[nm] = pol
+        if len(pv.returns) != 1:
+            okc = False
+            continue
+        ups = [c.value for o_, c in pv.stmts if isinstance(c, ast.Expr) and isinstance(c.value, ast.Call)
+               and isinstance(c.value.func, ast.Attribute) and c.value.func.attr == 'update']
+        if g.get('new_none'):
+            okc = okc and not ups and u(pv.returns[0]) == cur
+            kinds.add('nothing new')
+            continue
+        want_recv = 'collections.Counter()' if g.get('cur_none') else (cur if g.get('cur_counter', True) else 'collections.Counter(%s)' % cur)
+        want_arg = '[%s]' % new if g.get('new_str') else new
+        okc = okc and len(ups) == 1 and u(ups[0].func.value) == want_recv and len(ups[0].args) == 1 and u(ups[0].args[0]) == want_arg \
+            and u(pv.returns[0]) == want_recv
+        kinds.add(('fresh' if g.get('cur_none') else 'kept', 'text' if g.get('new_str') else 'items'))
+    run.check(okc and {'nothing new', ('fresh', 'text'), ('fresh', 'items'), ('kept', 'text'), ('kept', 'items')} <= kinds, 'AGG', uc.where,
+              uc.qualname, 'update_counter: None adds nothing; a text is one item; the running value is a Counter, updated and returned',
+              'the counters aggregate does not count every collected value once (a text as one item) on top of what was counted before')
 
     kc = repo.cls(J + ':KeyCalc')
     kinit, kcall = ctx.N(kc.methods['__init__']), ctx.N(kc.methods['__call__'])
